@@ -3,6 +3,7 @@ package main
 // Ghost state and structured-concurrency rules (DESIGN §2.7). Hooks called from the generator.
 
 import (
+	"go/constant"
 	"fmt"
 	"go/token"
 	"go/types"
@@ -340,4 +341,33 @@ func (e *Engine) specialCall(g *Gen, callee *ssa.Function, cc *ssa.CallCommon, a
 		return &Val{T: resT}, true
 	}
 	return nil, false
+}
+
+// globalStringInit: the string constant of an initialiser  var x = []byte("...")  of a package-level slice variable.
+func (e *Engine) globalStringInit(gl *ssa.Global) (string, bool) {
+	if gl.Pkg == nil {
+		return "", false
+	}
+	init := gl.Pkg.Func("init")
+	if init == nil {
+		return "", false
+	}
+	found, str := 0, ""
+	for _, b := range init.Blocks {
+		for _, ins := range b.Instrs {
+			st, ok := ins.(*ssa.Store)
+			if !ok || st.Addr != ssa.Value(gl) {
+				continue
+			}
+			found++
+			if cv, isConv := st.Val.(*ssa.Convert); isConv {
+				if c, isC := cv.X.(*ssa.Const); isC && c.Value != nil && c.Value.Kind() == constant.String {
+					str = constant.StringVal(c.Value)
+					continue
+				}
+			}
+			return "", false
+		}
+	}
+	return str, found == 1
 }
